@@ -180,6 +180,10 @@ def check_transport(res, E, label, file, method, fetch_pat, exclude_pat, threads
     for s in seqs:
         if s not in uniq:
             uniq.append(s)
+    uniq = mc.label_divergences(uniq)
+    n_choice = len({op for s in uniq for op, _ in s if op[0] == "choice"})
+    if n_choice:
+        res.notes.append("%s: %d branch(es) not decided by a modelled operation are environment choices in the automaton" % (label, n_choice))
     root, nodes = mc.build_automaton(uniq)
     maxlen = max(len(s) for s in uniq) + 1
     steps = threads * maxlen
@@ -200,7 +204,7 @@ def check_transport(res, E, label, file, method, fetch_pat, exclude_pat, threads
         trace = M.check(bad, key, final_only=True)
         n += 1
         if trace is not None:
-            sched = [st["thread"] for st in trace]
+            sched = [(st["thread"], st["choice"]) if "choice" in st else st["thread"] for st in trace]
             sim = mc.simulate(nodes, threads, sched, ["updated", "running"])
             confirmed = sim is not None and (
                 (key == "fetched-twice" and sim["fetch_count"] >= 2) or
@@ -215,19 +219,21 @@ def check_transport(res, E, label, file, method, fetch_pat, exclude_pat, threads
                 json.dump({"property": res.prop, "what": what, "threads": threads,
                            "schedule": trace, "concrete_resimulation_confirms": bool(confirmed)}, f, indent=1)
             native = ""
-            if confirmed and label == "rsync" and key == "fetched-twice":
+            uses_choice = any("choice" in st for st in trace)
+            if confirmed and label == "rsync" and (key == "fetched-twice" or uses_choice):
                 import nativetest
-                failed, passed, out = nativetest.run_native_test("native_c37", "c37_native")
-                m = re.search(r"C37-NATIVE fetches=(\d+)", out)
+                test = "c37_native_failed_start_fetched_once" if uses_choice else "c37_native_second_thread_after_remove"
+                failed, passed, out = nativetest.run_native_test("native_c37", test)
+                m = re.search(r"C37-NATIVE fetches=(\d+)|C37-NATIVE-FAILED-START attempts=(\d+)", out)
+                cnt = (m.group(1) or m.group(2)) if m else None
                 res.extra.setdefault("native_replays", []).append(
-                    {"test": "c37_native_second_thread_after_remove", "fetches": int(m.group(1)) if m else None,
-                     "test_failed": failed})
+                    {"test": test, "fetches": int(cnt) if cnt else None, "test_failed": failed})
                 with open(fn.replace(".json", ".native.log"), "w") as f:
                     f.write(out[-6000:])
                 if failed:
-                    native = "; reproduced natively: the real rsync::Run::load_module ran the rsync command %s times" % (m.group(1) if m else "?")
+                    native = "; reproduced natively (%s): the real rsync::Run::load_module attempted the fetch %s times" % (test, cnt or "?")
                 elif passed:
-                    res.inconclusive.append("rsync: MC schedule for a double fetch did not reproduce with the real code (native test passed)")
+                    res.inconclusive.append("rsync: MC schedule for %s did not reproduce with the real code (native test %s passed)" % (key, test))
                     continue
                 else:
                     native = "; native replay could not be built/run"
